@@ -26,6 +26,7 @@ pub fn gen_oligo_case(rng: &mut Rng, tier: &str, prop: &str) -> Case {
         min_len: 0,
         dup_pct: 3,
             tab_desc_pct: 0,
+            utf8_id_pct: 0,
             dup_id_pct: 0,
     };
     let mut records = g.gen(rng);
